@@ -4,7 +4,7 @@ import itertools
 
 from ..astutil import (U, dotted, get_class, get_method, methods, walk_local, is_self_attr, call_name, short,
                        enum_member, params, bind_args, all_functions)
-from ..cfg import CFG, calls_at
+from ..cfg import CFG, calls_at, expr_nodes
 from ..dataflow import ReachingDefs, node_of_expr
 from ..guards import call_nodes, dominating_edges, cmp_parts, edge_successors, is_none_test, handler_catches
 from ..engmodel import EngineModel, ENGINE, CHOKE, LISTER, PIEOBJ
@@ -168,6 +168,81 @@ def check_decision_points(ctx, m, rule, fnames):
             retv = [r.stmt.value.id for r in g.nodes if r.kind == 'stmt' and isinstance(r.stmt, ast.Return) and isinstance(r.stmt.value, ast.Name)]
             ctx.check(len(retv) == 1, rule, 'KmipEngine.%s|single-return' % fname, fs, 'one returned list', 'unrecognised return shape')
             good = bool(apps)
+            loop_heads = [x for x in g.nodes if x.kind == 'loop' and isinstance(x.stmt, ast.For) and x.stmt in dn.loops]
+            why_l = []
+
+            def from_decision(e, at):
+                """e (evaluated at node `at`) is the decision of THIS object: the decision variable itself, `<it> is True`, bool(<it>),
+                or the entry of a per-call memo table whose key determines every object-dependent argument of the decision"""
+                if isinstance(e, ast.Compare):
+                    p = cmp_parts(e)
+                    if p and isinstance(p[2], ast.Constant) and p[2].value is True and p[1] in ('Is', 'Eq'):
+                        return from_decision(p[0], at)
+                    return False
+                if isinstance(e, ast.Call) and call_name(e) == 'bool' and len(e.args) == 1:
+                    return from_decision(e.args[0], at)
+                if isinstance(e, ast.Name):
+                    defs = rd.reaching(at, e.id)
+                    if not defs:
+                        return False
+                    for var, val, dnode in defs:
+                        if val is dc:
+                            if not (dnode is not None and all(lh.stmt in dnode.loops for lh in loop_heads)):
+                                return False
+                            continue
+                        if isinstance(val, ast.AST) and dnode is not None and from_decision(val, dnode):
+                            continue
+                        return False
+                    return True
+                memo = None
+                if isinstance(e, ast.Subscript) and isinstance(e.value, ast.Name):
+                    memo = (e.value.id, e.slice)
+                elif isinstance(e, ast.Call) and isinstance(e.func, ast.Attribute) and e.func.attr == 'get' and isinstance(e.func.value, ast.Name) and len(e.args) == 1:
+                    memo = (e.func.value.id, e.args[0])
+                if memo is None:
+                    return False
+                dname, kexpr = memo
+
+                def keytext(k, node):
+                    from ..dataflow import resolve
+                    k2, _ = resolve(rd, node, k)
+                    return k2
+                # the table is a local, created empty before the loop, never passed on or returned
+                ddefs = rd.reaching(at, dname)
+                if not ddefs or not all(isinstance(v, ast.AST) and ((isinstance(v, ast.Dict) and not v.keys) or (isinstance(v, ast.Call) and call_name(v) == 'dict' and not v.args and not v.keywords))
+                                        and d_ is not None and not any(lh.stmt in d_.loops for lh in loop_heads) for _, v, d_ in ddefs):
+                    why_l.append('memo table %s is not a fresh local dict of this call' % dname)
+                    return False
+                kk = keytext(kexpr, at)
+                stores = [(x, t_) for x in g.nodes if x.kind == 'stmt' and isinstance(x.stmt, ast.Assign) for t_ in x.stmt.targets
+                          if isinstance(t_, ast.Subscript) and isinstance(t_.value, ast.Name) and t_.value.id == dname]
+                if not stores:
+                    return False
+                for x, t_ in stores:
+                    if U(keytext(t_.slice, x)) != U(kk) or not from_decision(x.stmt.value, x):
+                        why_l.append('memo table %s is filled with something else than the decision for its key' % dname)
+                        return False
+                # other uses of the table: membership tests, len() and reads only
+                for x in g.nodes:
+                    for e2 in expr_nodes(x):
+                        for nn in ast.walk(e2):
+                            if isinstance(nn, ast.Name) and nn.id == dname and isinstance(nn.ctx, ast.Load):
+                                par = getattr(nn, '_parent', None)
+                                okuse = isinstance(par, ast.Subscript) or (isinstance(par, ast.Compare) and nn in par.comparators) \
+                                    or (isinstance(par, ast.Attribute) and par.attr in ('get', 'keys', '__contains__')) \
+                                    or (isinstance(par, ast.Call) and call_name(par) == 'len')
+                                if not okuse:
+                                    why_l.append('memo table %s escapes (%s)' % (dname, short(par)))
+                                    return False
+                elts = kk.elts if isinstance(kk, ast.Tuple) else [kk]
+                have = set(U(x_) for x_ in elts)
+                need_ = [U(b[p_]) for p_ in want if b.get(p_) is not None]
+                missing = [x_ for x_ in need_ if x_ not in have]
+                if missing:
+                    why_l.append('the memo key %s does not determine the decision: it omits %s' % (U(kk), ', '.join(missing)))
+                    return False
+                return True
+
             for n, c in apps:
                 tgt = c.func.value
                 if not (isinstance(tgt, ast.Name) and retv and tgt.id == retv[0]):
@@ -176,20 +251,101 @@ def check_decision_points(ctx, m, rule, fnames):
                 edge = False
                 for t, lab in dominating_edges(g, n):
                     p = cmp_parts(t.stmt)
-                    if isinstance(t.stmt, ast.Name) and t.stmt.id == dvar and lab == 'T':
+                    pos = None
+                    if p and isinstance(p[2], ast.Constant) and p[2].value is True and p[1] in ('Is', 'Eq', 'IsNot', 'NotEq'):
+                        pos = (p[1] in ('Is', 'Eq')) == (lab == 'T')
+                        ex = p[0]
+                    elif not p:
+                        pos = lab == 'T'
+                        ex = t.stmt
+                    if pos and from_decision(ex, t) and all(lh.stmt in t.loops for lh in loop_heads):
                         edge = True
-                    if p and isinstance(p[0], ast.Name) and p[0].id == dvar and isinstance(p[2], ast.Constant) and p[2].value is True and \
-                            ((p[1] in ('Is', 'Eq') and lab == 'T') or (p[1] in ('IsNot', 'NotEq') and lab == 'F')):
-                        edge = True
-                same_iter = g.dominates(dn, n) and not any(l in ('loop', 'continue') for x in [dn] for mm, l in [])  # decision in the same iteration
+                same_iter = all(lh.stmt in n.loops for lh in loop_heads) and bool(loop_heads) and [d[2] for d in rd.reaching(n, obj)] == [d[2] for d in rd.reaching(dn, obj)]
                 if not (oke and edge and same_iter):
                     good = False
             # the returned list starts empty
             rvals = rd.values(g.exit.pred[0][0], retv[0]) if retv else []
             good = good and all(isinstance(v, ast.Call) and call_name(v) == 'list' and not v.args or isinstance(v, ast.List) and not v.elts for v in rvals)
             ctx.check(good, rule, 'KmipEngine.%s|append-on-allowed-edge' % fname, fs, 'objects are appended only on the allowed edge, to an initially empty list',
-                      'the lister can include an object without a true policy decision for it')
+                      'the lister can include an object without a true policy decision for it' + ('' if not why_l else ': ' + why_l[0]))
 
+
+
+def fold_decision_table(ctx, m):
+    """Decide C03.R5 by exhaustive evaluation: _is_allowed_by_operation_policy (with is_allowed and get_relevant_policy_section
+    folded through) is evaluated for every combination of a finite model - policy absent / preset only / groups only / both,
+    each section in 8 shapes (object type missing, operation missing, ALLOW_ALL, ALLOW_OWNER, DISALLOW_ALL, a permission value
+    outside the three, entry for another operation only, entry for another object type only), requester groups None / [] / [defined] / [undefined] /
+    [undefined, defined], requester is / is not the owner - and compared with the decision table of the property statement.
+    Returns False when the functions cannot be folded (the caller falls back to the structural rules)."""
+    from ..fold import Folder, Enum, Opaque, Unfoldable, Raised
+    T, T2 = Enum('ObjectType', 'SYMMETRIC_KEY'), Enum('ObjectType', 'CERTIFICATE')
+    OP, OP2 = Enum('Operation', 'GET'), Enum('Operation', 'DESTROY')
+    ALL, OWNER, NONE_ = Enum('Policy', 'ALLOW_ALL'), Enum('Policy', 'ALLOW_OWNER'), Enum('Policy', 'DISALLOW_ALL')
+    sections = [('type-missing', {}), ('operation-missing', {T: {}}), ('ALLOW_ALL', {T: {OP: ALL}}), ('ALLOW_OWNER', {T: {OP: OWNER}}),
+                ('DISALLOW_ALL', {T: {OP: NONE_}}), ('other-operation-only', {T: {OP2: ALL}}), ('other-type-only', {T2: {OP: ALL}}),
+                ('unknown-permission', {T: {OP: Enum('Policy', 'SOME_FUTURE_PERMISSION')}})]
+    policies = [('no such policy', None)]
+    for n1, s1 in sections:
+        policies.append(('preset=%s' % n1, {'preset': s1}))
+        policies.append(('groups{g1}=%s' % n1, {'groups': {'g1': s1}}))
+        for n2, s2 in sections:
+            policies.append(('preset=%s groups{g1}=%s' % (n1, n2), {'preset': s1, 'groups': {'g1': s2}}))
+    # an EMPTY group list is left out of the model: whether "member of no group" counts as group information is not settled by the
+    # property text (the engine denies; the unit test test_is_allowed_by_operation_policy_groups_empty pins that)
+    groupsets = [('no group information', None), ('group g1', ['g1']), ('unknown group', ['gX']), ('groups gX,g1', ['gX', 'g1'])]
+
+    def grants(section, is_owner):
+        if not section:
+            return False
+        perm = (section.get(T) or {}).get(OP)
+        return perm == ALL or (perm == OWNER and is_owner)
+
+    def spec(pol, groups, is_owner):
+        if not pol:
+            return False
+        if groups:
+            if pol.get('groups'):
+                return any(grants(pol['groups'].get(g), is_owner) for g in groups)
+            return grants(pol.get('preset'), is_owner)          # the policy defines no groups: the preset section decides
+        return grants(pol.get('preset'), is_owner)
+
+    decide = m.method('_is_allowed_by_operation_policy')
+    dsite = m.site(decide, decide)
+    meths = {k: v for k, v in m.methods.items()}
+    mism = {}
+    n = 0
+    try:
+        for pname, pol in policies:
+            for gname, groups in groupsets:
+                for is_owner in (True, False):
+                    f = Folder(models={'self._get_enum_string': lambda x: str(x)}, methods=meths, steps=50000)
+                    selfv = {'__attrs__': ('_operation_policies', '_logger'), '_operation_policies': ({'P': pol} if pol is not None else {}), '_logger': Opaque('logger')}
+                    ident = ('alice', None if groups is None else list(groups))
+                    try:
+                        got = f.call_method(decide, selfv, ['P', ident, 'alice' if is_owner else 'bob', T, OP], {})
+                    except Raised as ex:
+                        got = 'raises %s' % ex.name
+                    n += 1
+                    want = spec(pol, groups, is_owner)
+                    if bool(got) is not want or isinstance(got, str):
+                        # classes of disagreement (one finding per class, the first combination as witness)
+                        if groups and pol and not pol.get('groups') and want and got in (False, None):
+                            cls = ('KmipEngine.get_relevant_policy_section|policy exists and group given and not policy has groups -> none', m.method('get_relevant_policy_section'))
+                        else:
+                            cls = ('KmipEngine._is_allowed_by_operation_policy|decision-table|%s' % ('grants what the table denies' if want is False else 'denies what the table grants'), decide)
+                        mism.setdefault(cls[0], (cls[1], '%s; %s; requester is %sthe owner -> %s (table: %s)' % (pname, gname, '' if is_owner else 'not ', got, want), 0))
+                        fn_, w_, c_ = mism[cls[0]]
+                        mism[cls[0]] = (fn_, w_, c_ + 1)
+    except Unfoldable as ex:
+        ctx.note('C03.R5: the decision functions cannot be folded (%s); structural rules used instead' % ex)
+        return False
+    ctx.count('decision_table_combinations', n, 500)
+    if not mism:
+        ctx.ok('C03.R5', dsite, 'the access decision agrees with the decision table on all %d combinations of policy shape, group information and ownership' % n)
+    for key, (fn_, witness, cnt) in sorted(mism.items()):
+        ctx.fail('C03.R5', key, m.site(fn_, fn_), 'the access decision deviates from the decision table of the property on %d of %d model combinations; first: %s' % (cnt, n, witness))
+    return True
 
 
 def run(ctx):
@@ -318,231 +474,234 @@ def run(ctx):
     check_decision_points(ctx, m, 'C03.R4', (CHOKE, LISTER))
     decide = m.method('_is_allowed_by_operation_policy')
 
-    # ---------------- R5 decision trees
-    ia = m.method('is_allowed')
-    g = CFG(ia)
-    rd = ReachingDefs(g)
-    ips = params(ia)
-    isite = m.site(ia, ia)
+    # ---------------- R5 decision table (by folding over a finite model of policies, groups and owners; the spelling-based
+    #                  analysis below is the fallback when the functions use something the folder does not model)
+    if not fold_decision_table(ctx, m):
+        # ---------------- R5 decision trees
+        ia = m.method('is_allowed')
+        g = CFG(ia)
+        rd = ReachingDefs(g)
+        ips = params(ia)
+        isite = m.site(ia, ia)
 
-    def chain_of(var, node):
-        """Follow single reaching definitions X = Y.get(K) -> list of keys, root expression."""
-        keys = []
-        cur, nd = var, node
-        for _ in range(6):
-            vals = rd.reaching(nd, cur)
-            if len(vals) != 1 or not isinstance(vals[0][1], ast.Call):
-                return keys, cur
-            c = vals[0][1]
-            if isinstance(c.func, ast.Attribute) and c.func.attr == 'get' and isinstance(c.func.value, ast.Name) and c.args:
-                keys.append(U(c.args[0]))
-                cur, nd = c.func.value.id, vals[0][2]
-            elif call_name(c) == 'self.get_relevant_policy_section':
-                keys.append('section(%s)' % ','.join(U(a) for a in c.args))
-                return keys, 'ROOT'
-            else:
-                return keys, cur
-        return keys, cur
-    n_ret = 0
-    for pn, lab in g.exit.pred:
-        s = pn.stmt
-        n_ret += 1
-        rs = m.site(s, ia) if s is not None else isite
-        if not isinstance(s, ast.Return):
-            ctx.fail('C03.R5', 'KmipEngine.is_allowed|falls-off', rs, 'is_allowed can fall off its end')
-            continue
-        v = s.value
-        edges = dominating_edges(g, pn)
-        pol = None       # policy constant established on this path
-        owner = False
-        polvar_ok = False
-        for t, l2 in edges:
-            p = cmp_parts(t.stmt)
-            if p and p[1] == 'Eq' and l2 == 'T':
-                em = enum_member(p[2], 'Policy')
-                if em and isinstance(p[0], ast.Name):
-                    keys, root = chain_of(p[0].id, t)
-                    if root == 'ROOT' and keys[:2] == [ips[5], ips[4]] and keys[2] == 'section(%s,%s)' % (ips[0], ips[2]):
-                        pol = em[1]
-                if isinstance(p[0], ast.Name) and isinstance(p[2], ast.Name) and {p[0].id, p[2].id} == {ips[1], ips[3]}:
-                    if all(d[2] is None for d in rd.reaching(t, p[0].id) + rd.reaching(t, p[2].id)):
-                        owner = True
-        if isinstance(v, ast.Constant) and v.value in (False, None):
-            ctx.ok('C03.R5', rs, 'deny')
-            continue
-        if isinstance(v, ast.Constant) and v.value is True:
-            ok = pol == 'ALLOW_ALL' or (pol == 'ALLOW_OWNER' and owner)
-            ctx.check(ok, 'C03.R5', 'KmipEngine.is_allowed|grant@%s' % ('/'.join(sorted(set(U(t.stmt) + ':' + l for t, l in edges)))[:120]), rs,
-                      'grant under %s%s' % (pol, ' and user == owner' if owner else ''),
-                      'is_allowed grants access on a path that establishes neither ALLOW_ALL nor (ALLOW_OWNER and user == owner); guards: %s'
-                      % [(short(t.stmt, 50), l) for t, l in edges])
-            continue
-        # return of an expression: only the owner comparison under ALLOW_OWNER is a recognised grant form
-        p = cmp_parts(v)
-        ok = bool(p) and p[1] == 'Eq' and isinstance(p[0], ast.Name) and isinstance(p[2], ast.Name) and {p[0].id, p[2].id} == {ips[1], ips[3]} and pol == 'ALLOW_OWNER'
-        ctx.check(ok, 'C03.R5', 'KmipEngine.is_allowed|return-expr %s' % short(v, 60), rs, 'returns user == owner under ALLOW_OWNER',
-                  'is_allowed returns a non-constant value that is not the owner comparison under ALLOW_OWNER: %s' % short(v))
-    ctx.count('is_allowed_returns', n_ret, 5)
-    # every missing-entry test must lead to deny: all tests on the lookup chain variables: falsy edge cannot reach a grant
-    grants = [pn for pn, l in g.exit.pred if isinstance(pn.stmt, ast.Return) and not (isinstance(pn.stmt.value, ast.Constant) and pn.stmt.value.value in (False, None))]
-    for var_role in ('policy_section', 'object_policy', 'operation_object_policy'):
-        pass
-    lookups = [n for n in g.nodes if n.kind == 'stmt' and isinstance(n.stmt, ast.Assign) and isinstance(n.stmt.value, ast.Call)
-               and (call_name(n.stmt.value) == 'self.get_relevant_policy_section' or (isinstance(n.stmt.value.func, ast.Attribute) and n.stmt.value.func.attr == 'get'))]
-    ctx.count('policy_lookups', len(lookups), 3)
-    for ln in lookups:
-        var = ln.stmt.targets[0].id
-        guarded = False
-        for t in g.nodes:
-            if t.kind != 'test':
+        def chain_of(var, node):
+            """Follow single reaching definitions X = Y.get(K) -> list of keys, root expression."""
+            keys = []
+            cur, nd = var, node
+            for _ in range(6):
+                vals = rd.reaching(nd, cur)
+                if len(vals) != 1 or not isinstance(vals[0][1], ast.Call):
+                    return keys, cur
+                c = vals[0][1]
+                if isinstance(c.func, ast.Attribute) and c.func.attr == 'get' and isinstance(c.func.value, ast.Name) and c.args:
+                    keys.append(U(c.args[0]))
+                    cur, nd = c.func.value.id, vals[0][2]
+                elif call_name(c) == 'self.get_relevant_policy_section':
+                    keys.append('section(%s)' % ','.join(U(a) for a in c.args))
+                    return keys, 'ROOT'
+                else:
+                    return keys, cur
+            return keys, cur
+        n_ret = 0
+        for pn, lab in g.exit.pred:
+            s = pn.stmt
+            n_ret += 1
+            rs = m.site(s, ia) if s is not None else isite
+            if not isinstance(s, ast.Return):
+                ctx.fail('C03.R5', 'KmipEngine.is_allowed|falls-off', rs, 'is_allowed can fall off its end')
                 continue
-            isnone = is_none_test(t.stmt)
-            falsy_label = None
-            if isinstance(t.stmt, ast.Name) and t.stmt.id == var:
-                falsy_label = 'F'
-            elif isnone and isinstance(isnone[1], ast.Name) and isnone[1].id == var:
-                falsy_label = 'T' if isnone[0] == 'is' else 'F'
-            if falsy_label and g.dominates(ln, t):
-                succ = edge_successors(t, falsy_label)
-                if all(not any(gr.id in g.reachable(s_) for gr in grants) for s_ in succ):
-                    # and every grant is dominated by the opposite edge
-                    if all(g.edge_dominates(t, 'T' if falsy_label == 'F' else 'F', gr) for gr in grants):
-                        guarded = True
-        ctx.check(guarded, 'C03.R5', 'KmipEngine.is_allowed|missing-%s-denies' % var, m.site(ln.stmt, ia),
-                  'a missing %s entry cannot reach a grant' % var, 'a missing/empty %s does not force a deny before a grant can be returned' % var)
+            v = s.value
+            edges = dominating_edges(g, pn)
+            pol = None       # policy constant established on this path
+            owner = False
+            polvar_ok = False
+            for t, l2 in edges:
+                p = cmp_parts(t.stmt)
+                if p and p[1] == 'Eq' and l2 == 'T':
+                    em = enum_member(p[2], 'Policy')
+                    if em and isinstance(p[0], ast.Name):
+                        keys, root = chain_of(p[0].id, t)
+                        if root == 'ROOT' and keys[:2] == [ips[5], ips[4]] and keys[2] == 'section(%s,%s)' % (ips[0], ips[2]):
+                            pol = em[1]
+                    if isinstance(p[0], ast.Name) and isinstance(p[2], ast.Name) and {p[0].id, p[2].id} == {ips[1], ips[3]}:
+                        if all(d[2] is None for d in rd.reaching(t, p[0].id) + rd.reaching(t, p[2].id)):
+                            owner = True
+            if isinstance(v, ast.Constant) and v.value in (False, None):
+                ctx.ok('C03.R5', rs, 'deny')
+                continue
+            if isinstance(v, ast.Constant) and v.value is True:
+                ok = pol == 'ALLOW_ALL' or (pol == 'ALLOW_OWNER' and owner)
+                ctx.check(ok, 'C03.R5', 'KmipEngine.is_allowed|grant@%s' % ('/'.join(sorted(set(U(t.stmt) + ':' + l for t, l in edges)))[:120]), rs,
+                          'grant under %s%s' % (pol, ' and user == owner' if owner else ''),
+                          'is_allowed grants access on a path that establishes neither ALLOW_ALL nor (ALLOW_OWNER and user == owner); guards: %s'
+                          % [(short(t.stmt, 50), l) for t, l in edges])
+                continue
+            # return of an expression: only the owner comparison under ALLOW_OWNER is a recognised grant form
+            p = cmp_parts(v)
+            ok = bool(p) and p[1] == 'Eq' and isinstance(p[0], ast.Name) and isinstance(p[2], ast.Name) and {p[0].id, p[2].id} == {ips[1], ips[3]} and pol == 'ALLOW_OWNER'
+            ctx.check(ok, 'C03.R5', 'KmipEngine.is_allowed|return-expr %s' % short(v, 60), rs, 'returns user == owner under ALLOW_OWNER',
+                      'is_allowed returns a non-constant value that is not the owner comparison under ALLOW_OWNER: %s' % short(v))
+        ctx.count('is_allowed_returns', n_ret, 5)
+        # every missing-entry test must lead to deny: all tests on the lookup chain variables: falsy edge cannot reach a grant
+        grants = [pn for pn, l in g.exit.pred if isinstance(pn.stmt, ast.Return) and not (isinstance(pn.stmt.value, ast.Constant) and pn.stmt.value.value in (False, None))]
+        for var_role in ('policy_section', 'object_policy', 'operation_object_policy'):
+            pass
+        lookups = [n for n in g.nodes if n.kind == 'stmt' and isinstance(n.stmt, ast.Assign) and isinstance(n.stmt.value, ast.Call)
+                   and (call_name(n.stmt.value) == 'self.get_relevant_policy_section' or (isinstance(n.stmt.value.func, ast.Attribute) and n.stmt.value.func.attr == 'get'))]
+        ctx.count('policy_lookups', len(lookups), 3)
+        for ln in lookups:
+            var = ln.stmt.targets[0].id
+            guarded = False
+            for t in g.nodes:
+                if t.kind != 'test':
+                    continue
+                isnone = is_none_test(t.stmt)
+                falsy_label = None
+                if isinstance(t.stmt, ast.Name) and t.stmt.id == var:
+                    falsy_label = 'F'
+                elif isnone and isinstance(isnone[1], ast.Name) and isnone[1].id == var:
+                    falsy_label = 'T' if isnone[0] == 'is' else 'F'
+                if falsy_label and g.dominates(ln, t):
+                    succ = edge_successors(t, falsy_label)
+                    if all(not any(gr.id in g.reachable(s_) for gr in grants) for s_ in succ):
+                        # and every grant is dominated by the opposite edge
+                        if all(g.edge_dominates(t, 'T' if falsy_label == 'F' else 'F', gr) for gr in grants):
+                            guarded = True
+            ctx.check(guarded, 'C03.R5', 'KmipEngine.is_allowed|missing-%s-denies' % var, m.site(ln.stmt, ia),
+                      'a missing %s entry cannot reach a grant' % var, 'a missing/empty %s does not force a deny before a grant can be returned' % var)
 
-    # get_relevant_policy_section as a decision tree over atoms
-    gs = m.method('get_relevant_policy_section')
-    gg = CFG(gs)
-    grd = ReachingDefs(gg)
-    gps = params(gs)
-    gsite = m.site(gs, gs)
+        # get_relevant_policy_section as a decision tree over atoms
+        gs = m.method('get_relevant_policy_section')
+        gg = CFG(gs)
+        grd = ReachingDefs(gg)
+        gps = params(gs)
+        gsite = m.site(gs, gs)
 
-    def classify_value(v, node):
-        if v is None or (isinstance(v, ast.Constant) and v.value is None):
-            return 'none'
-        if isinstance(v, ast.Call) and isinstance(v.func, ast.Attribute) and v.func.attr == 'get' and v.args and isinstance(v.args[0], ast.Constant) and v.args[0].value == 'preset':
-            return 'preset'
-        if isinstance(v, ast.Name):
-            vals = grd.values(node, v.id)
-            if len(vals) == 1 and isinstance(vals[0], ast.Call) and isinstance(vals[0].func, ast.Attribute) and vals[0].func.attr == 'get':
-                c = vals[0]
-                if c.args and isinstance(c.args[0], ast.Name) and c.args[0].id == gps[1]:
-                    return 'group-section'
-                if c.args and isinstance(c.args[0], ast.Constant) and c.args[0].value == 'preset':
-                    return 'preset'
-        return 'other:' + U(v)
+        def classify_value(v, node):
+            if v is None or (isinstance(v, ast.Constant) and v.value is None):
+                return 'none'
+            if isinstance(v, ast.Call) and isinstance(v.func, ast.Attribute) and v.func.attr == 'get' and v.args and isinstance(v.args[0], ast.Constant) and v.args[0].value == 'preset':
+                return 'preset'
+            if isinstance(v, ast.Name):
+                vals = grd.values(node, v.id)
+                if len(vals) == 1 and isinstance(vals[0], ast.Call) and isinstance(vals[0].func, ast.Attribute) and vals[0].func.attr == 'get':
+                    c = vals[0]
+                    if c.args and isinstance(c.args[0], ast.Name) and c.args[0].id == gps[1]:
+                        return 'group-section'
+                    if c.args and isinstance(c.args[0], ast.Constant) and c.args[0].value == 'preset':
+                        return 'preset'
+            return 'other:' + U(v)
 
-    def atom_of(test, node):
-        """-> atom in {'B' bundle exists,'G' group given,'H' policy has groups,'P' group section exists} or None"""
-        if isinstance(test, ast.Name):
-            if test.id == gps[1]:
-                return 'G'
-            vals = grd.values(node, test.id)
-            if len(vals) == 1 and isinstance(vals[0], ast.Call) and isinstance(vals[0].func, ast.Attribute) and vals[0].func.attr == 'get' and vals[0].args:
-                a = vals[0].args[0]
-                if isinstance(a, ast.Name) and a.id == gps[0] and U(vals[0].func.value) == 'self._operation_policies':
-                    return 'B'
-                if isinstance(a, ast.Constant) and a.value == 'groups':
-                    return 'H'
-                if isinstance(a, ast.Name) and a.id == gps[1]:
-                    return 'P'
-        nt = is_none_test(test)
-        if nt:
-            a = atom_of(nt[1], node)
-            return a
-        return None
-    rows = []
-    for pn, lab in gg.exit.pred:
-        s = pn.stmt
-        if not isinstance(s, ast.Return):
-            ctx.fail('C03.R5', 'KmipEngine.get_relevant_policy_section|falls-off', gsite, 'function can fall off its end')
-            continue
-        cond = {}
-        for t, l2 in dominating_edges(gg, pn):
-            a = atom_of(t.stmt, t)
-            if a is None:
-                raise AnalysisError('unrecognised construct: guard %s in get_relevant_policy_section' % short(t.stmt))
-            nt = is_none_test(t.stmt)
-            val = (l2 == 'T')
-            if nt and nt[0] == 'is':
-                val = not val
-            cond[a] = val
-        rows.append((cond, classify_value(s.value, pn), s))
-    ctx.count('policy_section_returns', len(rows), 3)
-    T_SECTION = {}   # (B,G,H,P) -> expected
-    for B, G, H, P in itertools.product((True, False), repeat=4):
-        if not B:
-            exp = 'none'
-        elif G and H:
-            exp = 'group-section' if P else 'none'
-        else:
-            exp = 'preset'      # no group information, or group information but the policy defines no groups (docs/source/server.rst)
-        T_SECTION[(B, G, H, P)] = exp
-    mismatches = {}
-    for key, exp in sorted(T_SECTION.items()):
-        asg = dict(zip('BGHP', key))
-        hit = [r for r in rows if all(asg[a] == v for a, v in r[0].items())]
-        if len(hit) != 1:
-            raise AnalysisError('unrecognised construct: decision tree of get_relevant_policy_section is not a partition (assignment %s matches %d returns)' % (asg, len(hit)))
-        got = hit[0][1]
-        if got == 'group-section' and not asg['P']:
-            got = 'none'    # returning the (falsy) lookup result is a deny
-        if got != exp:
-            mismatches.setdefault((tuple(sorted(hit[0][0].items())), got, exp), []).append(asg)
-    n_ok = len(T_SECTION) - sum(len(v) for v in mismatches.values())
-    for i in range(n_ok):
-        pass
-    ctx.ok('C03.R5', gsite, '%d of %d atom assignments select the documented section' % (n_ok, len(T_SECTION)))
-    for (cond, got, exp), asgs in sorted(mismatches.items(), key=str):
-        desc = ' and '.join(('' if v else 'not ') + {'B': 'policy exists', 'G': 'group given', 'H': 'policy has groups', 'P': 'group section exists'}[a] for a, v in cond)
-        ctx.fail('C03.R5', 'KmipEngine.get_relevant_policy_section|%s -> %s' % (desc, got), gsite,
-                 'policy section choice deviates from the documented table: when %s the function yields %s, expected %s' % (desc, got, exp), assignments=asgs)
-    # _is_allowed_by_operation_policy
-    df = decide
-    dg = CFG(df)
-    drd = ReachingDefs(dg)
-    dps = params(df)
-    dsite = m.site(df, df)
-    ok = True
-    why = ''
-    grants_ = []
-    for pn, lab in dg.exit.pred:
-        s = pn.stmt
-        if not isinstance(s, ast.Return):
-            ok = False
-            why = 'falls off'
-            continue
-        if isinstance(s.value, ast.Constant) and s.value.value in (False, None):
-            continue
-        if isinstance(s.value, ast.Constant) and s.value.value is True:
-            est = False
-            for t, l2 in dominating_edges(dg, pn):
-                if isinstance(t.stmt, ast.Name) and l2 == 'T':
-                    vals = drd.values(t, t.stmt.id)
-                    if len(vals) == 1 and isinstance(vals[0], ast.Call) and call_name(vals[0]) == 'self.is_allowed':
-                        b = bind_args(ia, vals[0])
-                        okb = all(isinstance(b.get(x), ast.Name) for x in ips)
-                        if okb:
-                            okb = b[ips[0]].id == dps[0] and b[ips[3]].id == dps[2] and b[ips[4]].id == dps[3] and b[ips[5]].id == dps[4]
-                            uv = drd.values(t, b[ips[1]].id)
-                            okb = okb and len(uv) == 1 and U(uv[0]) == '%s[0]' % dps[1]
-                            gv = drd.values(t, b[ips[2]].id)
-                            okb = okb and len(gv) == 1 and isinstance(gv[0], tuple) and gv[0][0] == 'iter'
-                            if okb:
-                                itv = gv[0][1]
-                                srcs = drd.values([d for d in drd.reaching(t, b[ips[2]].id)][0][2], itv.id) if isinstance(itv, ast.Name) else []
-                                okb = bool(srcs) and all(U(x) in ('%s[1]' % dps[1], '[None]') for x in srcs if isinstance(x, ast.AST)) and all(isinstance(x, ast.AST) for x in srcs)
-                        est = est or okb
-            if not est:
+        def atom_of(test, node):
+            """-> atom in {'B' bundle exists,'G' group given,'H' policy has groups,'P' group section exists} or None"""
+            if isinstance(test, ast.Name):
+                if test.id == gps[1]:
+                    return 'G'
+                vals = grd.values(node, test.id)
+                if len(vals) == 1 and isinstance(vals[0], ast.Call) and isinstance(vals[0].func, ast.Attribute) and vals[0].func.attr == 'get' and vals[0].args:
+                    a = vals[0].args[0]
+                    if isinstance(a, ast.Name) and a.id == gps[0] and U(vals[0].func.value) == 'self._operation_policies':
+                        return 'B'
+                    if isinstance(a, ast.Constant) and a.value == 'groups':
+                        return 'H'
+                    if isinstance(a, ast.Name) and a.id == gps[1]:
+                        return 'P'
+            nt = is_none_test(test)
+            if nt:
+                a = atom_of(nt[1], node)
+                return a
+            return None
+        rows = []
+        for pn, lab in gg.exit.pred:
+            s = pn.stmt
+            if not isinstance(s, ast.Return):
+                ctx.fail('C03.R5', 'KmipEngine.get_relevant_policy_section|falls-off', gsite, 'function can fall off its end')
+                continue
+            cond = {}
+            for t, l2 in dominating_edges(gg, pn):
+                a = atom_of(t.stmt, t)
+                if a is None:
+                    raise AnalysisError('unrecognised construct: guard %s in get_relevant_policy_section' % short(t.stmt))
+                nt = is_none_test(t.stmt)
+                val = (l2 == 'T')
+                if nt and nt[0] == 'is':
+                    val = not val
+                cond[a] = val
+            rows.append((cond, classify_value(s.value, pn), s))
+        ctx.count('policy_section_returns', len(rows), 3)
+        T_SECTION = {}   # (B,G,H,P) -> expected
+        for B, G, H, P in itertools.product((True, False), repeat=4):
+            if not B:
+                exp = 'none'
+            elif G and H:
+                exp = 'group-section' if P else 'none'
+            else:
+                exp = 'preset'      # no group information, or group information but the policy defines no groups (docs/source/server.rst)
+            T_SECTION[(B, G, H, P)] = exp
+        mismatches = {}
+        for key, exp in sorted(T_SECTION.items()):
+            asg = dict(zip('BGHP', key))
+            hit = [r for r in rows if all(asg[a] == v for a, v in r[0].items())]
+            if len(hit) != 1:
+                raise AnalysisError('unrecognised construct: decision tree of get_relevant_policy_section is not a partition (assignment %s matches %d returns)' % (asg, len(hit)))
+            got = hit[0][1]
+            if got == 'group-section' and not asg['P']:
+                got = 'none'    # returning the (falsy) lookup result is a deny
+            if got != exp:
+                mismatches.setdefault((tuple(sorted(hit[0][0].items())), got, exp), []).append(asg)
+        n_ok = len(T_SECTION) - sum(len(v) for v in mismatches.values())
+        for i in range(n_ok):
+            pass
+        ctx.ok('C03.R5', gsite, '%d of %d atom assignments select the documented section' % (n_ok, len(T_SECTION)))
+        for (cond, got, exp), asgs in sorted(mismatches.items(), key=str):
+            desc = ' and '.join(('' if v else 'not ') + {'B': 'policy exists', 'G': 'group given', 'H': 'policy has groups', 'P': 'group section exists'}[a] for a, v in cond)
+            ctx.fail('C03.R5', 'KmipEngine.get_relevant_policy_section|%s -> %s' % (desc, got), gsite,
+                     'policy section choice deviates from the documented table: when %s the function yields %s, expected %s' % (desc, got, exp), assignments=asgs)
+        # _is_allowed_by_operation_policy
+        df = decide
+        dg = CFG(df)
+        drd = ReachingDefs(dg)
+        dps = params(df)
+        dsite = m.site(df, df)
+        ok = True
+        why = ''
+        grants_ = []
+        for pn, lab in dg.exit.pred:
+            s = pn.stmt
+            if not isinstance(s, ast.Return):
                 ok = False
-                why = 'grant at line %s not backed by is_allowed(policy, user, group, owner, type, operation)' % s.lineno
-        else:
-            ok = False
-            why = 'returns %s' % short(s.value)
-    ctx.check(ok, 'C03.R5', 'KmipEngine._is_allowed_by_operation_policy|grant-iff-some-group-allowed', dsite,
-              'True only when is_allowed(...) holds for the user and one of the session groups ([None] when no group information)',
-              'the group loop can grant without a true is_allowed verdict: %s' % why)
+                why = 'falls off'
+                continue
+            if isinstance(s.value, ast.Constant) and s.value.value in (False, None):
+                continue
+            if isinstance(s.value, ast.Constant) and s.value.value is True:
+                est = False
+                for t, l2 in dominating_edges(dg, pn):
+                    if isinstance(t.stmt, ast.Name) and l2 == 'T':
+                        vals = drd.values(t, t.stmt.id)
+                        if len(vals) == 1 and isinstance(vals[0], ast.Call) and call_name(vals[0]) == 'self.is_allowed':
+                            b = bind_args(ia, vals[0])
+                            okb = all(isinstance(b.get(x), ast.Name) for x in ips)
+                            if okb:
+                                okb = b[ips[0]].id == dps[0] and b[ips[3]].id == dps[2] and b[ips[4]].id == dps[3] and b[ips[5]].id == dps[4]
+                                uv = drd.values(t, b[ips[1]].id)
+                                okb = okb and len(uv) == 1 and U(uv[0]) == '%s[0]' % dps[1]
+                                gv = drd.values(t, b[ips[2]].id)
+                                okb = okb and len(gv) == 1 and isinstance(gv[0], tuple) and gv[0][0] == 'iter'
+                                if okb:
+                                    itv = gv[0][1]
+                                    srcs = drd.values([d for d in drd.reaching(t, b[ips[2]].id)][0][2], itv.id) if isinstance(itv, ast.Name) else []
+                                    okb = bool(srcs) and all(U(x) in ('%s[1]' % dps[1], '[None]') for x in srcs if isinstance(x, ast.AST)) and all(isinstance(x, ast.AST) for x in srcs)
+                            est = est or okb
+                if not est:
+                    ok = False
+                    why = 'grant at line %s not backed by is_allowed(policy, user, group, owner, type, operation)' % s.lineno
+            else:
+                ok = False
+                why = 'returns %s' % short(s.value)
+        ctx.check(ok, 'C03.R5', 'KmipEngine._is_allowed_by_operation_policy|grant-iff-some-group-allowed', dsite,
+                  'True only when is_allowed(...) holds for the user and one of the session groups ([None] when no group information)',
+                  'the group loop can grant without a true is_allowed verdict: %s' % why)
 
     # ---------------- R6 masking
     cp = m.method(CHOKE)
@@ -598,7 +757,9 @@ def run(ctx):
                     node = node_of_expr(g2, n._parent)
                     vals = rd2.values(node, n.value.id)
                     fresh = bool(vals) and all(isinstance(v, ast.Call) and ((call_name(v) or '').startswith('objects.') or (isinstance(v.func, ast.Attribute) and v.func.attr == 'convert')) for v in vals)
-                    ok = fresh and U(n._parent.value) == 'self._client_identity[0]' and fn.name in hop
+                    from ..dataflow import resolve
+                    oval, _on = resolve(rd2, node, n._parent.value)       # a hoisted `owner = self._client_identity[0]` is the same value
+                    ok = fresh and U(oval) == 'self._client_identity[0]' and fn.name in hop
                 ctx.check(ok, 'C03.R7', '%s|_owner-store' % q, site, 'owner of a freshly constructed object set from the client identity',
                           'the owner of an object is (re)assigned outside object creation, or not from the authenticated client identity')
     ctx.count('owner_stores', n_owner)
